@@ -4,7 +4,9 @@ import (
 	"context"
 	"fmt"
 	"io"
+	"os"
 	"reflect"
+	"runtime/debug"
 
 	"github.com/cloudwego/eino/compose"
 	"github.com/cloudwego/eino/schema"
@@ -93,6 +95,9 @@ func catch(f func()) (pv string) {
 	defer func() {
 		if r := recover(); r != nil {
 			pv = fmt.Sprint(r)
+			if os.Getenv("C15_DEBUG") != "" {
+				fmt.Printf("PANIC %v\n%s\n", r, debug.Stack())
+			}
 		}
 	}()
 	f()
